@@ -544,8 +544,11 @@ func lastLines(s string, n int) string {
 }
 
 func c33Worker(s evid.ShardInfo, r *evid.Run, thorough bool) {
-	debug.SetGCPercent(800)
+	debug.SetGCPercent(300)
 	w, err := buildC33World()
+	for try := 0; err != nil && try < 3; try++ { // a busy machine can make the first start or connect time out
+		w, err = buildC33World()
+	}
 	if err != nil {
 		evid.EngineError("C33", "%v", err)
 	}
@@ -572,6 +575,9 @@ func c33Worker(s evid.ShardInfo, r *evid.Run, thorough bool) {
 		r.Set("subtype_pairs_in_closure", nsub)
 	}
 	cl, err := connectClient(w.url)
+	for try := 0; err != nil && try < 3; try++ {
+		cl, err = connectClient(w.url)
+	}
 	if err != nil {
 		evid.EngineError("C33", "client connect: %v", err)
 	}
